@@ -74,7 +74,7 @@ class Sched:
         start = first if first is not None else self.chooser.choose(self, "start", None, order, None)
         self.current = start
         self.threads[start]["sem"].release()
-        self.done_evt.wait(timeout=60)
+        self.done_evt.wait(timeout=20)
         if not self.done_evt.is_set():
             self.deadlock = self.deadlock or "scheduler timeout (threads stuck outside scheduling points)"
             self.aborted = True
